@@ -152,33 +152,35 @@ Qed.
 
 (* every string that lexes to the token text of a derivation, parsed by the shared parser after any
    history of calls, reports exactly the occurrences of the derivation *)
-Theorem names_exact_string : forall junk ops s e,
+Theorem names_exact_string : forall junk engine ops s e,
+  engine (strip_spaces s) = false ->
   wf_expr e = true ->
   lex (strip_spaces s) = Some (render e) ->
-  exists l, snd (step junk faithful (run junk faithful init ops) (OParse s)) = VP (VTree (flatten e) l) /\
+  exists l, snd (step junk engine faithful (run junk engine faithful init ops) (OParse s)) = VP (VTree (flatten e) l) /\
             nperm l (enames e).
 Proof.
-  intros junk ops s e W L.
+  intros junk engine ops s e He W L.
   assert (B : check_brackets (strip_spaces s) = None) by (apply (brackets_of_print _ (flatten e)); exact L).
   destruct (names_exact_render e W) as (log & H1 & H2).
-  pose proof (step_spec junk (run junk faithful init ops) (OParse s) (reachable_inv junk ops)) as P.
-  destruct (step junk faithful (run junk faithful init ops) (OParse s)) as [st' v].
+  pose proof (step_spec junk engine (run junk engine faithful init ops) (OParse s) (reachable_inv junk engine ops)) as P.
+  destruct (step junk engine faithful (run junk engine faithful init ops) (OParse s)) as [st' v].
   destruct P as (_ & _ & ->). exists log. split; [|assumption].
-  simpl. unfold spec_parse. rewrite B, L, H1. reflexivity.
+  simpl. unfold spec_parse. rewrite B, He, L, H1. reflexivity.
 Qed.
 
 (* membership form: a name is reported as a variable iff it occurs as a variable, etc.; in particular a name
    that occurs only as a function head is not reported as a variable and vice versa *)
-Corollary names_exact_membership : forall junk ops s e,
+Corollary names_exact_membership : forall junk engine ops s e,
+  engine (strip_spaces s) = false ->
   wf_expr e = true ->
   lex (strip_spaces s) = Some (render e) ->
-  exists l, snd (step junk faithful (run junk faithful init ops) (OParse s)) = VP (VTree (flatten e) l) /\
+  exists l, snd (step junk engine faithful (run junk engine faithful init ops) (OParse s)) = VP (VTree (flatten e) l) /\
             forall x, (In x (n_vars l) <-> In x (evars e)) /\
                       (In x (n_funcs l) <-> In x (efuncs e)) /\
                       (In x (n_sufs l) <-> In x (esufs e)).
 Proof.
-  intros junk ops s e W L.
-  destruct (names_exact_string junk ops s e W L) as (l & H1 & H2).
+  intros junk engine ops s e He W L.
+  destruct (names_exact_string junk engine ops s e He W L) as (l & H1 & H2).
   exists l. split; [assumption|]. intro x.
   split; [apply (nperm_in_vars l (enames e) x H2)|].
   split; [apply (nperm_in_funcs l (enames e) x H2)|apply (nperm_in_sufs l (enames e) x H2)].
